@@ -17,8 +17,9 @@ from ..symreal.core import S, symarr, vjp, new_session, evalarr
 from ..symreal.discharge import prove_equal
 from ..symreal.pool import run_catalogue
 
-ALPHABET = ["B0", "B1", "B2", "B3", "B4", "B5", "B6", "B7", "B8", "REG_d", "REFUSED_last", "BW_last", "BW_prev", "BW_int", "BW_leaf_a", "BWG_last", "BWR_last", "BWR_int", "RET_int", "RET_last", "AUG_c", "Z_a", "Z_mod", "Z_opt"]
-DESCR = {
+ALPHABET = ["B0", "B1", "B2", "B3", "B4", "B5", "B6", "B7", "B8", "B9", "B10", "BN_train", "REG_d", "REFUSED_last", "BW_last", "BW_prev", "BW_int", "BW_leaf_a", "BWG_last", "BWR_last", "BWR_int", "RET_int", "RET_last", "AUG_c", "Z_a", "Z_mod", "Z_opt"]
+DESCR = {"B9": "sum_k w_k * stack([c, a, c, b])[k]  (constants in front of and between the operands that require grad)", "B10": "eval-mode BatchNorm1d over the batch (a, b), weighted sum",
+         "BN_train": "a training-mode forward through that layer on other data (rewrites its running statistics)", 
     "B0": "r = a * b", "B1": "m = a + b; r = m * a", "B2": "r = sum(a * a)", "B3": "r = <previous result> * b  (reuse of an earlier result)", "B4": "m = exp(b); r = m * c", "B5": "u = unbind(a); r = u[0] * b + u[1] + a   (multi-output op whose operand is also used directly)",
     "B7": "r = a * d   (d: a parameter that is registered in a nested module only by event REG_d)", "REG_d": "module.inner.pd = d   (registration after the module may already have been queried)",
     "B8": "r = e * b   (e: a second Parameter object tied to a's storage, registered in the module, not given to the optimizer)",
@@ -132,6 +133,27 @@ class World:
             import synapgrad.nn.functional as NF
             from synapgrad.tensor import Tensor
             self.results.append(NF.cross_entropy(F.stack([a, b], 0), Tensor(np.array([0, 1]))))
+        elif ev == "B9":
+            # a join of operands that do and do not require grad, the constant ones in front and in between; each slice gets its own weight so upstream slices differ
+            st = F.stack([c, a, c, b], 0)
+            self.results.append(st[0] * 2.0 + st[1] * 3.0 + st[2] * 5.0 + st[3] * 7.0)
+        elif ev == "B10":
+            # an eval-mode batch norm over (a, b) as a batch of two samples; the layer's running statistics are rewritten by the event BN_train before this graph is swept
+            from synapgrad.tensor import Tensor
+            if getattr(self, "bn", None) is None:
+                import synapgrad.nn as nn_
+                self.bn = nn_.BatchNorm1d(int(np.prod(self.shape, dtype=int)) if self.shape else 1, affine=False, dtype=a.data.dtype)
+                self.bn.running_mean = Tensor(np.array(c.data).reshape(-1) * 1.0)
+                self.bn.running_var = Tensor(np.array(c.data).reshape(-1) * np.array(c.data).reshape(-1) + 1.0)
+            self.bn.eval()
+            x = F.stack([F.reshape(a, (-1,)), F.reshape(b, (-1,))], 0)
+            self.results.append(F.reshape(F.sum(self.bn(x) * F.stack([F.reshape(c, (-1,)), F.reshape(c, (-1,)) + 1.0], 0), 0), self.shape))
+        elif ev == "BN_train":
+            if getattr(self, "bn", None) is not None:
+                from synapgrad.tensor import Tensor
+                self.bn.train()
+                self.bn(Tensor(np.array(F.stack([F.reshape(c, (-1,)) + 2.0, F.reshape(c, (-1,)) * 3.0], 0).data)))
+                self.bn.eval()
         elif ev in ("BW_last", "BW_prev", "BW_int", "BW_leaf_a"):
             t = self.target(ev)
             t.backward(self.fresh_g(t.shape))
@@ -453,7 +475,7 @@ def histories(tier, seed):
     maxlen = 3
     for n in range(1, maxlen + 1):
         for h in itertools.product(ALPHABET, repeat=n):
-            if h[0] not in ("B0", "B1", "B2", "B3", "B4", "B5", "B6", "B7", "B8", "BW_leaf_a", "Z_a", "Z_mod", "Z_opt"):
+            if h[0] not in ("B0", "B1", "B2", "B3", "B4", "B5", "B6", "B7", "B8", "B9", "BW_leaf_a", "Z_a", "Z_mod", "Z_opt") or "B10" in h or "BN_train" in h:
                 continue
             if not any(e.startswith("BW") for e in h):
                 continue
@@ -490,6 +512,9 @@ def histories(tier, seed):
         hs.append((b, "RET_last", "B3", "BW_last", "BWG_last"))
     # augmented assignment on the constant operand between building a graph and differentiating it
     for h in (("B4", "AUG_c", "BW_last"), ("B4", "BW_last", "AUG_c", "BW_last"), ("B4", "AUG_c", "B4", "BW_prev", "BW_last"), ("B0", "B3", "AUG_c", "BW_last"), ("B4", "AUG_c", "AUG_c", "BWR_last", "BW_int")):
+        hs.append(h)
+    # a stateful layer used in eval mode, its statistics rewritten by a training forward, THEN the eval-mode graph is swept (and swept again)
+    for h in (("B10", "BN_train", "BW_last"), ("B10", "BW_last", "BN_train", "BW_last"), ("B10", "BN_train", "B10", "BW_prev", "BW_last"), ("B9", "BW_last", "B9", "BW_last", "BW_prev")):
         hs.append(h)
     # late registration: the module is queried (zero_grad) before and after a parameter is attached to a nested module
     for pre in (("Z_mod",), ("B7", "BW_last", "Z_mod"), ()):
